@@ -284,7 +284,8 @@ ImpVerdict(e, V, im) ==
    LET enc == V.enc # "none"
        wrong == im.mode \notin {"none", "right"}
        holds == HoldsPrivate(V)
-   IN IF enc /\ im.mode = "none" THEN
+   IN IF wrong /\ (im.pw = e.pw \/ im.pw = <<>>) THEN "harness: the wrong passphrase is the right one or empty"
+      ELSE IF enc /\ im.mode = "none" THEN
            (IF im.out = "ok" THEN "encrypted key imported without a passphrase"
             ELSE IF im.out \notin Refusals(e) THEN "import without passphrase raised " \o im.out \o " instead of ValueError" ELSE "ok")
       ELSE IF enc /\ wrong THEN
